@@ -97,12 +97,16 @@ GlobJudged(p) ==
 (* Brace alternation.                                                      *)
 (***************************************************************************)
 \* nesting depth after each prefix never negative and finally zero
-RECURSIVE DepthOK(_, _, _)
-DepthOK(p, i, d) ==
+\* (a fold over the characters; the depth -1 is absorbing)
+DepthOK(p, i0, d0) ==
+    FoldL(LAMBDA d, c : IF d < 0 THEN d ELSE IF c = LBRACE THEN d + 1 ELSE IF c = RBRACE THEN d - 1 ELSE d,
+          d0, SubSeq(p, i0, Len(p))) = 0
+RECURSIVE DepthOKRef(_, _, _)
+DepthOKRef(p, i, d) ==
     IF i > Len(p) THEN d = 0
-    ELSE IF p[i] = LBRACE THEN DepthOK(p, i + 1, d + 1)
-    ELSE IF p[i] = RBRACE THEN d > 0 /\ DepthOK(p, i + 1, d - 1)
-    ELSE DepthOK(p, i + 1, d)
+    ELSE IF p[i] = LBRACE THEN DepthOKRef(p, i + 1, d + 1)
+    ELSE IF p[i] = RBRACE THEN d > 0 /\ DepthOKRef(p, i + 1, d - 1)
+    ELSE DepthOKRef(p, i + 1, d)
 Balanced(p) == DepthOK(p, 1, 0)
 
 \* matching '}' of the '{' at position o (p balanced): first position where depth returns to 0
